@@ -140,6 +140,7 @@ class Trace:
         self.events = []     # (when_us, order_idx, info)
         self.event_vec = []
         self.crash = None
+        self.unobservable = False     # some state could not be observed through the public API (no model comparison)
 
 
 async def _run_case(case, max_concurrent=1):
@@ -168,7 +169,11 @@ async def _run_case(case, max_concurrent=1):
             infos = await e.get_loans()
             ids = [i.id for i in infos]
         except Exception:
-            ids = list(e._loan_mgr._loans._items.keys())
+            try:
+                ids = list(e._loan_mgr._loans._items.keys())
+            except AttributeError:
+                # the container is not where it used to be: what the public API still tells (loans attached to orders)
+                ids = [lid for info in await e.get_orders() for lid in info.loan_ids]
         for i in ids:
             if i not in loan_ids:
                 loan_ids.append(i)
@@ -217,16 +222,28 @@ async def _run_case(case, max_concurrent=1):
         for ln in snap["loans"]:
             if ln.get("error") is not None and "is_open" not in ln:
                 # get_loan itself failed: only the error is observable; encode like the model does for an open loan
-                raw = e._loan_mgr._loans.get(loan_ids[ln["idx"]])
-                v += [F(int(raw.is_open)), F(syms.index(raw.borrowed_symbol) + 1), fr(raw.borrowed_amount), F(-1),
-                      sum((fr(x) for x in raw.paid_interest.values()), F(0))]
+                try:
+                    raw = e._loan_mgr._loans.get(loan_ids[ln["idx"]])
+                    v += [F(int(raw.is_open)), F(syms.index(raw.borrowed_symbol) + 1), fr(raw.borrowed_amount), F(-1),
+                          sum((fr(x) for x in raw.paid_interest.values()), F(0))]
+                except AttributeError:
+                    # not reachable through the internals any more: the last public observation of this loan (a loan
+                    # whose interest cannot be priced is open; symbol and amount never change)
+                    seen = last_loan_obs.get(ln["idx"])
+                    if seen is None:
+                        tr.unobservable = True
+                        v += [F(1), F(0), F(0), F(-1), F(0)]
+                    else:
+                        v += [F(1), F(syms.index(seen["sym"]) + 1), seen["amount"], F(-1), sum(seen["paid"].values(), F(0))]
             else:
+                last_loan_obs[ln["idx"]] = ln
                 v += [F(int(ln["is_open"])), F(syms.index(ln["sym"]) + 1), ln["amount"],
                       sum(ln["outstanding"].values(), F(0)) if ln["is_open"] else F(0),
                       sum(ln["paid"].values(), F(0))]
         return v
 
     case["_order_pairs"] = []      # creation index -> pair idx (filled as orders get accepted)
+    last_loan_obs = {}
 
     async def record(op, reply, extra=None):
         snap = await snapshot()
